@@ -64,6 +64,11 @@ pub fn generate(family: &str, seed: u64, n: usize) -> Vec<String> {
                 out.push(gen_basis_req(&mut rng));
             }
         }
+        "opt" => {
+            while out.len() < n {
+                out.push(gen_opt_req(&mut rng, "run"));
+            }
+        }
         "tables" => {
             for v in packing::wallpaper::WallpaperGroups::variants().iter() {
                 out.push(format!("tables group {}", v));
@@ -565,4 +570,117 @@ fn gen_basis_req(rng: &mut Rng) -> String {
         }
     }
     s
+}
+
+// ---------------------------------------------------------------- opt
+
+fn ofh(x: Option<f64>) -> String {
+    x.map(fhex).unwrap_or_else(|| "-".to_string())
+}
+
+/// optimiser configuration over the grid of the properties: zero / positive temperatures,
+/// kt_finish / kt_ratio, one or many inner loops, non-multiples, inner > steps, zero counts,
+/// convergence on/off, small and large steps.
+pub fn gen_cfg(rng: &mut Rng) -> String {
+    let steps = *rng.pick(&[0u64, 1, 2, 3, 7, 10, 24, 50, 100, 200, 333, 600]);
+    let inner = *rng.pick(&[0u64, 1, 2, 3, 5, 7, 10, 25, 50, 100, 1000]);
+    let kt_start = match rng.below(5) {
+        0 | 1 => 0.0,
+        2 => 0.1,
+        3 => rng.logmag(-4.0, 1.0),
+        _ => *rng.pick(&[1.0, 1e-3, 0.5]),
+    };
+    // the public builder cannot clear kt_finish (default Some(0.001)), so it is always set
+    let kt_finish = Some(*rng.pick(&[0.001, 0.0, 1e-3, 1.0, 0.05, 1e-6]));
+    let kt_ratio = match rng.below(6) {
+        0 | 1 | 2 => None,
+        3 => Some(0.0),
+        4 => Some(*rng.pick(&[0.1, 0.5, 1.0, 2.0, 0.01])),
+        _ => Some(rng.range(0.0, 1.0)),
+    };
+    let max_step = match rng.below(4) {
+        0 => 0.01,
+        1 => 0.001,
+        2 => rng.logmag(-3.0, 0.0),
+        _ => *rng.pick(&[1.0, 0.5, 0.1, 2.0]),
+    };
+    let seed = match rng.below(3) {
+        0 => rng.below(100),
+        1 => rng.next(),
+        _ => rng.below(1 << 20),
+    };
+    let conv = match rng.below(4) {
+        0 => Some(*rng.pick(&[1e-3, 1e-6, 0.1, 0.0, 10.0])),
+        _ => None,
+    };
+    format!("{} {} {} {} {} {} {} {}", steps, inner, fhex(kt_start), ofh(kt_finish), ofh(kt_ratio), fhex(max_step), seed, ofh(conv))
+}
+
+pub fn gen_scripted(rng: &mut Rng) -> String {
+    let nc = 1 + rng.usize(6);
+    let mut s = format!("scripted {}", nc);
+    let mut vals = vec![];
+    for _ in 0..nc {
+        let v = rng.range(-0.5, 0.5);
+        vals.push(v);
+        s.push_str(&format!(" {}", fhex(v)));
+    }
+    // handles: usually one per cell; sometimes fewer (parameters without a handle), sometimes
+    // two handles on one cell
+    let nh = match rng.below(6) {
+        0 => 1 + rng.usize(nc),
+        1 => nc + 1,
+        _ => nc,
+    };
+    s.push_str(&format!(" {}", nh));
+    for h in 0..nh {
+        let a = if h < nc && !rng.chance(1, 8) { h } else { rng.usize(nc) };
+        let (lo, hi) = match rng.below(3) {
+            0 => (-0.5, 0.5),
+            1 => (vals[a] - rng.range(0.0, 0.2), vals[a] + rng.range(0.0, 0.2)),
+            _ => (rng.range(-1.0, -0.5), rng.range(0.5, 1.0)),
+        };
+        s.push_str(&format!(" {} {} {}", a, fhex(lo), fhex(hi)));
+    }
+    match rng.below(3) {
+        0 => {
+            // explicit outcome list: ties, invalids, ups and downs; first outcome defined
+            let n = 1 + rng.usize(40);
+            s.push_str(&format!(" list {}", n));
+            let mut cur = rng.range(-1.0, 1.0);
+            for i in 0..n {
+                let r = rng.below(10);
+                if i > 0 && r == 0 {
+                    s.push_str(" N");
+                } else {
+                    if r >= 3 {
+                        cur = match rng.below(4) {
+                            0 => cur,
+                            1 => cur + rng.range(0.0, 0.1),
+                            _ => cur - rng.range(0.0, 0.2) * rng.unit(),
+                        };
+                    }
+                    s.push_str(&format!(" {}", fhex(cur)));
+                }
+            }
+        }
+        _ => {
+            s.push_str(&format!(" bowl {}", nc));
+            for _ in 0..nc {
+                s.push_str(&format!(" {} {}", fhex(rng.range(-0.6, 0.6)), fhex(rng.logmag(-1.0, 1.0))));
+            }
+            if rng.chance(1, 3) {
+                let i = rng.usize(nc);
+                let lo = vals[i] + rng.range(0.01, 0.2);
+                s.push_str(&format!(" hole {} {} {}", i, fhex(lo), fhex(lo + rng.range(0.01, 0.3))));
+            } else {
+                s.push_str(" nohole");
+            }
+        }
+    }
+    s
+}
+
+fn gen_opt_req(rng: &mut Rng, op: &str) -> String {
+    format!("opt {} {} {}", op, gen_cfg(rng), gen_scripted(rng))
 }
